@@ -61,6 +61,8 @@ type side struct {
 	recvLen int64 // bytes it must read after recvOff
 	wmode   int   // 0 Write, 1 ReadFrom(chunk reader)
 	rmode   int   // 0 Read, 1 WriteTo(check writer)
+
+	firstDelay time.Duration // pause before the first write of this side
 }
 
 func addrLen(a conn.Addr) int {
@@ -245,6 +247,9 @@ func Run(s *simrt.Sim) {
 
 	cl := &side{name: "client", sendKey: kC2S, recvKey: kS2C, sendLen: c2sLen, sendOff: int64(pLen), recvLen: s2cLen, wmode: s.Choose(2), rmode: s.Choose(2)}
 	sv := &side{name: "server", sendKey: kS2C, recvKey: kC2S, sendLen: s2cLen, wmode: s.Choose(2), rmode: s.Choose(2)}
+	if s.GenChance(24) {
+		sv.firstDelay = util.Pick(s, []time.Duration{29 * time.Second, 31 * time.Second, 45 * time.Second, 5 * time.Minute})
+	}
 
 	s.Param("key", fmt.Sprint(keyLen*8))
 	s.Param("multi", fmt.Sprint(multi))
@@ -307,7 +312,9 @@ func Run(s *simrt.Sim) {
 		})
 	}
 
+	var held []netio.ConnRequest // requests handed out; they must still read the same at the end
 	checkReq := func(req netio.ConnRequest) bool {
+		held = append(held, req)
 		if !sameTarget(req.Addr, target) {
 			s.Fail("c01.request-mismatch{addr}", "server saw target %v, client asked for %v", req.Addr, target)
 			return false
@@ -360,6 +367,7 @@ func Run(s *simrt.Sim) {
 			c2.Close()
 		})
 		serve(newServer(), ln2, func(req netio.ConnRequest, c netio.Conn) {
+			held = append(held, req)
 			if !sameTarget(req.Addr, target) || req.Username != userName {
 				s.Fail("c01.request-mismatch{addr}", "second hop saw %v as %q, expected %v as %q", req.Addr, req.Username, target, userName)
 				return
@@ -394,6 +402,12 @@ func Run(s *simrt.Sim) {
 	if s.Failed() {
 		return
 	}
+	for _, req := range held {
+		if !sameTarget(req.Addr, target) || req.Username != userName {
+			s.Fail("c01.request-changed{addr}", "the request the server handed out read %v (user %q) right after the handshake and reads %v (user %q) after the streams were relayed", target, userName, req.Addr, req.Username)
+			return
+		}
+	}
 	if c2sLen+s2cLen+int64(pLen) > 0 && (s.ProbeCount("c01.multi-chunk-write") > 0 || s.ProbeCount("c01.path.readfrom") > 0 ||
 		s.ProbeCount("c01.path.writeto") > 0 || tunnel || w.SegP > 0) {
 		s.SetNontrivial()
@@ -416,6 +430,11 @@ func runSide(s *simrt.Sim, wg *sync.WaitGroup, sd *side) {
 func writer(s *simrt.Sim, sd *side) {
 	remaining := sd.sendLen
 	off := sd.sendOff
+	if sd.firstDelay > 0 {
+		// the first byte of this direction is written long after the handshake (slow origin)
+		s.Probe("c01.first-write-delayed")
+		s.Sleep(sd.firstDelay)
+	}
 	if sd.wmode == 1 {
 		rf, ok := sd.c.(io.ReaderFrom)
 		if !ok {
